@@ -221,6 +221,73 @@ def run(m):
     return {"violated": any("<b>" in o for o in out), "observed": out}
 '''
 
+# ---- capture keeps what it captured safe: under autoescape the captured text (already escaped
+# ---- writes and safe values written unchanged) is assigned as Markup, so that "values marked
+# ---- safe are output unchanged" survives {% capture %}; without autoescape it is a plain string
+
+for _sfx in ("", "_async"):
+    for _ae in (True, False):
+        def _mkcap(sfx, ae):
+            @contract("liquid.builtin.tags.capture_tag:CaptureNode.render_to_output" + sfx, prop="C05", name=f"CaptureNode.render_to_output{sfx}[autoescape={ae}]")
+            def cap(c):
+                env = mk_env(c)
+                ctx = mk_ctx(c, env, autoescape=VBool(z3.BoolVal(ae)))
+                block = c.obj("liquid.ast:BlockNode", "block")
+                name = c.obj("liquid.builtin.expressions.primitive:Identifier", "name")
+                self = c.obj("liquid.builtin.tags.capture_tag:CaptureNode", "capture", name=name, block=block, token=NONE)
+                captured = c.str("captured_text")
+                inner = c.obj("io:StringIO", "capture_buffer", __text__=VStr(z3.StringVal("")))
+
+                def get_buffer(eng, st, a, k):
+                    return [(st, inner)]
+
+                def render(eng, st, a, k):
+                    # the block writes some text into the buffer it is given
+                    st.log.append(("block-rendered-into", a[2]))
+                    st.deref(a[2]).fields["__text__"] = captured
+                    return [(st, VInt(z3.Int("n_chars")))]
+
+                def markup(eng, st, a, k):
+                    st.log.append(("Markup", box(a[0])))
+                    return [(st, a[0])]
+
+                def assign(eng, st, a, k):
+                    st.log.append(("assign", a[1], box(a[2])))
+                    return [(st, NONE)]
+                c.summary(CTX + ".get_buffer", get_buffer)
+                c.summary("liquid.ast:BlockNode.render" + sfx, render)
+                c.summary("liquid.ast:Node.render" + sfx, render)
+                c.summary("builtin:markupsafe.Markup", markup)
+                c.summary(CTX + ".assign", assign)
+                c.call(ctx, c.obj("io:StringIO", "buffer", __text__=c.str("out")), self_val=self)
+
+                def post(r):
+                    assigns = [e for e in r.st.log if e[0] == "assign"]
+                    marks = [e for e in r.st.log if e[0] == "Markup"]
+                    into = [e for e in r.st.log if e[0] == "block-rendered-into"]
+                    if len(assigns) != 1 or into != [("block-rendered-into", inner)] or assigns[0][1] != name:
+                        return z3.BoolVal(False)
+                    val = assigns[0][2]
+                    if ae:
+                        return z3.And(z3.BoolVal(len(marks) == 1), val == U.str(captured.t), *([marks[0][1] == U.str(captured.t)] if marks else []))
+                    return z3.And(z3.BoolVal(not marks), val == U.str(captured.t))
+                c.ensures("captured-text-is-assigned-as-Markup-exactly-under-autoescape", post)
+                c.raises()
+                c.replay("code", code=REPLAY_CAPTURE)
+        _mkcap(_sfx, _ae)
+
+REPLAY_CAPTURE = r'''
+def run(m):
+    import asyncio
+    from markupsafe import Markup
+    from liquid import Environment
+    t = Environment(autoescape=True).from_string("{% capture c %}{{ safe }}|{{ unsafe }}{% endcapture %}{{ c }}")
+    want = "<b>ok</b>|&lt;i&gt;"
+    out = [t.render(safe=Markup("<b>ok</b>"), unsafe="<i>"), asyncio.run(t.render_async(safe=Markup("<b>ok</b>"), unsafe="<i>"))]
+    return {"violated": out != [want, want], "observed": out, "witness": "capture-loses-markup"}
+'''
+
+
 not_covered("C05", "markupsafe itself; drops with __html__", "'every & begins an escape sequence' is not a provenance fact: bounded check", "filters returning plain str are re-escaped at output and need no obligation")
 
 bounded("C05", "bounded/C05.py")
